@@ -120,6 +120,14 @@ Check C14_spec_is_generic :
   (forall s, meta_ok D s (init s)) ->
   forall nodes ls st,
   srun D ST ns (sinit init nodes) ls = Some st -> greach ST init (s_g st).
+Check C14_accept_sound :
+  forall ST tr st c c' st',
+  g_accept ST st c tr = (c', V_ok st') ->
+  (exists ls, grun ST st ls = Some st') /\
+  forall i o, nth_error tr i = Some o -> op_matches st' (c + i) o.
+Check C14_spec_accept_sound :
+  forall D ST ns tr st c c' st',
+  s_accept D ST ns st c tr = (c', V_ok st') -> exists ls, srun D ST ns st ls = Some st'.
 Print Assumptions C14_transparent.
 Print Assumptions C14_direct.
 Print Assumptions C14_id_changed.
@@ -132,3 +140,5 @@ Print Assumptions C14_frame_presents_id.
 Print Assumptions C14_never_skip_with_empty.
 Print Assumptions C14_faithful.
 Print Assumptions C14_spec_is_generic.
+Print Assumptions C14_accept_sound.
+Print Assumptions C14_spec_accept_sound.
